@@ -34,6 +34,7 @@ let rec parse_action () : action =
       let ni = next_int () in let is = times ni (fun () -> let n = next_hex () in let a = next_opt () in (n, a)) in
       AFrom (ps, is)
   | "S" -> let x = next_hex () in let v = next_int () in ASet (x, z_of_int v)
+  | "D" -> let x = next_hex () in ADef x
   | "C" -> let n = next_int () in let p = times n next_hex in let x = next_hex () in let v = next_int () in
       ACallSet (p, x, z_of_int v)
   | "O" -> let n = next_int () in let p = times n next_hex in AObs (EPath p)
@@ -88,8 +89,8 @@ let do_case () =
       Printf.sprintf "%s:%d:%d:%d:%d:%d" (hex n) (int_of_nat (get n s.starts)) (int_of_nat (get n s.done_nr))
         (int_of_nat (get n s.done_r)) (int_of_nat (get n s.fail_nr)) (int_of_nat (get n s.fail_r))) names in
   let acc = (List.for_all action_accepted main) && tree_accepted files in
-  Printf.printf "%s | %s | %s | acc=%d\n" (outcome_s o) (String.concat " " evs) (String.concat " " counters)
-    (if acc then 1 else 0)
+  Printf.printf "%s | %s | %s | acc=%d fuzzy=%d\n" (outcome_s o) (String.concat " " evs) (String.concat " " counters)
+    (if acc then 1 else 0) (if s.fuzzy then 1 else 0)
 
 let do_spelling () =
   let root = next_hex () in
